@@ -20,16 +20,23 @@ POOL = ("uuid", "date-time", "x", "y")
 
 
 class fresh_registry:
+    """save / restore the WHOLE state of the process-wide checker object (every attribute, copied one
+    level deep), so that no path leaks registrations - or any other bookkeeping - into the next one"""
+
     def __enter__(self):
+        import copy
         from statham.schema.validation.format import format_checker
 
         self.fc = format_checker
-        self.saved = dict(format_checker._callable_register)
+        self.saved = {k: copy.copy(val) for k, val in vars(format_checker).items()}
         return format_checker
 
     def __exit__(self, *a):
-        self.fc._callable_register.clear()
-        self.fc._callable_register.update(self.saved)
+        for k in list(vars(self.fc)):
+            if k not in self.saved:
+                delattr(self.fc, k)
+        for k, val in self.saved.items():
+            setattr(self.fc, k, val)
         return False
 
 
@@ -39,6 +46,10 @@ def registry_ok(names, behs, ks, fi, typed, v):
 
     with fresh_registry() as fc:
         model = {}
+        f = POOL[fi]
+        # a first validation BEFORE any registration (the name may be unknown at that point)
+        if not _check_once(f, typed, v, model):
+            return False
         for i in range(len(names)):
             name = POOL[names[i]]
             beh, k = behs[i], ks[i]
@@ -50,23 +61,32 @@ def registry_ok(names, behs, ks, fi, typed, v):
                 fn = lambda s, k=k: len(s) > k
             fc.register(name)(fn)
             model[name] = (beh, k)
-        f = POOL[fi]
-        el = String(format=f) if typed else Element(format=f)
-        if isinstance(v, str) and f not in model and f in ("uuid", "date-time"):
-            return True  # the built-in checker decides: subject of the built-in harnesses (uuid.py / dateutil on a symbolic str do not exhaust)
-        with warnings.catch_warnings(record=True) as w:
-            warnings.simplefilter("always")
-            acc = accepts(el, v)
-        nwarn = len([x for x in w if issubclass(x.category, RuntimeWarning)])
-        if not isinstance(v, str):
-            if typed:
-                return (not acc) and nwarn == 0
-            return acc and nwarn == 0
-        if f not in model:
-            return acc and nwarn == 1
-        beh, k = model[f]
-        expected = True if beh == 0 else (False if beh == 1 else len(v) > k)
-        return acc == expected and nwarn == 0
+            # ... and after every registration
+            if not _check_once(f, typed, v, model):
+                return False
+        return True
+
+
+def _check_once(f, typed, v, model):
+    import warnings
+    from vf.common import String, Element, accepts
+
+    el = String(format=f) if typed else Element(format=f)
+    if isinstance(v, str) and f not in model and f in ("uuid", "date-time"):
+        return True  # the built-in checker decides: subject of the built-in harnesses (uuid.py / dateutil on a symbolic str do not exhaust)
+    with warnings.catch_warnings(record=True) as w:
+        warnings.simplefilter("always")
+        acc = accepts(el, v)
+    nwarn = len([x for x in w if issubclass(x.category, RuntimeWarning)])
+    if not isinstance(v, str):
+        if typed:
+            return (not acc) and nwarn == 0
+        return acc and nwarn == 0
+    if f not in model:
+        return acc and nwarn == 1
+    beh, k = model[f]
+    expected = True if beh == 0 else (False if beh == 1 else len(v) > k)
+    return acc == expected and nwarn == 0
 
 
 def symbolic_name_ok(c, beh, v):
